@@ -11,7 +11,7 @@
 
   Reference counts and `dd.autoref`: a `Function` is one reference on its node
   (`Function.__init__` increfs, `__del__` decrefs; CPython releases a temporary as soon
-  as its last name goes away).  `wrap` / `drop` are those two events; `withTemps` releases
+  as its last name goes away).  `dmpWrap` / `dmpDrop` are those two events; `withTemps` releases
   the temporaries of a Python frame when the frame is left, normally or by an exception.
   Every temporary the real code makes during `load_json` is modelled (it matters when a
   reordering — hence a collection — happens in the middle of `bdd.var` / `bdd.ite`), so the
@@ -20,11 +20,12 @@
   each returned root keeps the `+1` of its live `Function`.  `dd.bdd.BDD.load` (pickle)
   returns plain integers: nothing is held; the `dd.autoref` wrapper holds `+1` per root.
 
-  Defects of the current code that the model reproduces (see DDProps/C12.lean):
-  F2 `roots=None` cannot be mapped by `load` (`TypeError`); F11 a constant root is not in
-  `umap` (`KeyError`); F3 `levels=False` builds nodes with `find_or_add` at mapped levels
-  (unordered diagram when the map is not increasing); F10 `load_json(load_order=True)`
-  always leaves dynamic reordering enabled.
+  Repaired in the code (fix commits 8564934, 58a79f8) and mirrored here: `load` returns an
+  empty list for a file written without roots, maps constant roots to themselves, and
+  builds every node with `_ite` on the mapped variable (any variable order of the target).
+  Still mirrored as it is (outside the text of C12, see the check's notes):
+  `load_json(load_order=True)` always leaves dynamic reordering enabled (`configure` is
+  given the dict it returned), and a refused `load_json` leaves it switched off.
 -/
 import DD.Apply
 open Std
@@ -199,7 +200,10 @@ def PEntry.find (succ : List PEntry) (k : Nat) : Option PEntry := succ.find? (fu
 
 /-- `_load(u, succ, umap, level_map)`.  `umap` has the keys `abs(u)`; the memo test
 `if u in umap` uses the *signed* `u`, so it never hits for a complemented edge (the node
-is then rebuilt through `find_or_add`, which returns the existing node).
+is then rebuilt; `find_or_add` and `_ite` return the existing nodes).
+Each node is built as `_ite(var_j, q, p)` on the mapped variable — not with `find_or_add`
+at the mapped level — so the variable order of the receiving manager may differ from the
+order in the file.  `_ite` is the undecorated recursion: `load` opens no reordering context.
 Fuel = Python's recursion limit (`RecursionError` on a cyclic file). -/
 def loadNodeF (succ : List PEntry) (lm : List (Nat × Nat)) :
     Nat → Int → TreeMap Int Int → M (Int × TreeMap Int Int)
@@ -210,7 +214,7 @@ def loadNodeF (succ : List PEntry) (lm : List (Nat × Nat)) :
       match umap[(u.natAbs : Int)]? with
       | none => (.error .key, m)
       | some r =>
-        if r ≤ 0 then (.error .assertion, m) else
+        if r = 0 then (.error .assertion, m) else
         (.ok ((if u < 0 then -r else r), umap), m)
     else
     match PEntry.find succ u.natAbs with
@@ -228,11 +232,16 @@ def loadNodeF (succ : List PEntry) (lm : List (Nat × Nat)) :
             match loadNodeF succ lm f w umap1 m1 with
             | (.error er, m2) => (.error er, m2)
             | (.ok (q, umap2), m2) =>
-              match findOrAdd j p q m2 with
+              -- `g = self.find_or_add(j, -1, 1)`
+              match findOrAdd j (-1) 1 m2 with
               | (.error er, m3) => (.error er, m3)
-              | (.ok r, m3) =>
-                if r ≤ 0 then (.error .assertion, m3) else
-                (.ok ((if u < 0 then -r else r), umap2.insert (u.natAbs : Int) r), m3)
+              | (.ok g, m3) =>
+                -- `r = self._ite(g, q, p)`
+                match iteRaw g q p m3 with
+                | (.error er, m4) => (.error er, m4)
+                | (.ok r, m4) =>
+                  if r = 0 then (.error .assertion, m4) else
+                  (.ok ((if u < 0 then -r else r), umap2.insert (u.natAbs : Int) r), m4)
         | none, _ => (.error .type, m)
         | some v, none =>
           match loadNodeF succ lm f v umap m with
@@ -250,11 +259,17 @@ def loadAll (succ : List PEntry) (lm : List (Nat × Nat)) (fuel : Nat) :
     | (.error er, m1) => (.error er, m1)
     | (.ok (_, umap1), m1) => loadAll succ lm fuel rest umap1 m1
 
-/-- `map_node` of `BDD.load` -/
+/-- `map_node` of `BDD.load`: constants map to themselves -/
 def mapNode (umap : TreeMap Int Int) (u : Int) : Except Err Int :=
+  if u.natAbs = 1 then .ok u else
   match umap[(u.natAbs : Int)]? with
   | none => .error .key
   | some v => .ok (if u < 0 then -v else v)
+
+/-- `if roots is None: return list()`, else `_map_container(map_node, roots)` -/
+def mapRoots (umap : TreeMap Int Int) : Roots → Except Err Roots
+  | .none => .ok (.list [])
+  | r => r.mapE (mapNode umap)
 
 /-- `dd.bdd.BDD.load(filename, levels)` on the content of the file -/
 def loadPickle (f : PickleFile) (levels : Bool) : M Roots := fun m =>
@@ -265,28 +280,28 @@ def loadPickle (f : PickleFile) (levels : Bool) : M Roots := fun m =>
     -- paths of at most `len(succ)` nodes
     match loadAll f.succ lm (f.vars.length + f.succ.length + 2) f.succ {} m1 with
     | (.error e, m2) => (.error e, m2)
-    | (.ok umap, m2) => (f.roots.mapE (mapNode umap), m2)
+    | (.ok umap, m2) => (mapRoots umap f.roots, m2)
 
 /-! ### the `dd.autoref` wrapping of results -/
 
 /-- `Function(u, bdd)`: membership test, then `incref` -/
-def wrap (u : Int) : M Unit := fun m =>
+def dmpWrap (u : Int) : M Unit := fun m =>
   if !m.mem u then (.error .value, m) else incref u m
 
 /-- `Function.__del__` -/
-def drop (u : Int) : M Unit := decref u
+def dmpDrop (u : Int) : M Unit := decref u
 
 def wrapList : List Int → M Unit
   | [] => fun m => (.ok (), m)
   | u :: rest => fun m =>
-    match wrap u m with
+    match dmpWrap u m with
     | (.error e, m1) => (.error e, m1)
     | (.ok _, m1) => wrapList rest m1
 
 /-- release handles; errors cannot occur for handles that were wrapped -/
 def dropList : List Int → Mgr → Mgr
   | [], m => m
-  | u :: rest, m => dropList rest (drop u m).2
+  | u :: rest, m => dropList rest (dmpDrop u m).2
 
 /-- run `x`; afterwards the listed temporaries die, whether `x` raised or not -/
 def withTemps (us : List Int) (x : M α) : M α := fun m =>
@@ -410,7 +425,7 @@ def dumpJson (m : Mgr) (roots : Roots) : Except Err JsonFile :=
 /-! ### JSON: `_copy.load_json` on a `dd.autoref.BDD` -/
 
 /-- `BDD.assert_consistent()` (the terminal's entries are implicit in the model) -/
-def assertConsistent : M Unit := fun m =>
+def dmpAssertConsistent : M Unit := fun m =>
   let t := m.tbl
   if m.roots.any (fun r => !m.mem r) then (.error .assertion, m) else
   -- `succ_keys == pred_values`, `pred_keys == succ_values`, `len` equal
@@ -429,18 +444,18 @@ on the node).  For `uid < 0`: `u = bdd._add_int(k)` is wrapped, `~ u` makes the 
 `Function`, then the temporary `u` dies. -/
 def nodeFromInt (cache : List (Nat × Int)) (uid : Int) : M Int := do
   if uid = -1 then
-    wrap (-1)
+    dmpWrap (-1)
     return -1
   if uid = 1 then
-    wrap 1
+    dmpWrap 1
     return 1
   let k ← M.ofOption .key (cache.lookup uid.natAbs)
   -- `bdd._add_int(k)`: `if i not in self: raise ValueError`, then `_wrap`
-  wrap k
+  dmpWrap k
   if uid < 0 then
     withTemps [k] do
       let r ← apply "not" k none none
-      wrap r
+      dmpWrap r
       return r
   else
     return k
@@ -464,20 +479,20 @@ def makeNode (loadOrder : Bool) (varAtLevel : List (Nat × String)) (ln : JLine)
         -- `autoref.BDD.find_or_add(var, low, high)`
         let level ← levelOfVar name
         let u ← findOrAdd level low high
-        wrap u
+        dmpWrap u
         withTemps [u] do
           M.assert (0 ≤ u)
           incref u
           return cache ++ [(ln.id, u)]
       else
         let g ← var name
-        wrap g
+        dmpWrap g
         withTemps [g] do
           containsCheck g
           containsCheck high
           containsCheck low
           let u ← ite g high low
-          wrap u
+          dmpWrap u
           withTemps [u] do
             M.assert (0 ≤ u)
             incref u
@@ -498,11 +513,11 @@ def rootsFromInts (cache : List (Nat × Int)) : List Int → M (List Int)
     fun m =>
       match rootsFromInts cache rest m with
       | (.ok us, m1) => (.ok (u :: us), m1)
-      | (.error e, m1) => (.error e, (drop u m1).2)
+      | (.error e, m1) => (.error e, (dmpDrop u m1).2)
 
 def dropOpt : Option Int → Mgr → Mgr
   | none, m => m
-  | some u, m => (drop u m).2
+  | some u, m => (dmpDrop u m).2
 
 /-- `for uid in cache:` of `_load_json` (“rm refs to cached nodes”).  The loop variable `u`
 keeps the previous `Function` alive until it is rebound.  Returns the `Function` that is
@@ -559,7 +574,7 @@ def loadJson (f : JsonFile) (loadOrder : Bool) : M Roots := do
     let (r, last, m1) := releaseLoop loadOrder cache cache none m
     let fin : M Unit := do
       liftE r
-      assertConsistent
+      dmpAssertConsistent
       if loadOrder then
         let _ ← configure (some true)
     match fin m1 with
